@@ -17,12 +17,12 @@ Notation cmp_lt := (cmp_lt ple).
 Definition pick_largest (s : store) (i : nat) : R (nat * store) :=
   pi ← prio_at s i;
   let l := left i in
-  if decide (l < size s) then
+  if decide (l < ssize s) then
     pl ← prio_at s l;
     '(b, s1) ← cmp_lt s pi pl;
     let '(largest, lp) := if b : bool then (l, pl) else (i, pi) in
     let r := right i in
-    if decide (r < size s1) then
+    if decide (r < ssize s1) then
       pr ← prio_at s1 r;
       '(b2, s2) ← cmp_lt s1 lp pr;
       Ok (if b2 : bool then r else largest, s2)
@@ -39,7 +39,7 @@ Fixpoint heapify_loop (fuel : nat) (s : store) (i : nat) : R store :=
   end.
 
 Definition heapify (s : store) (i : nat) : R store :=
-  if decide (size s <= 1) then Ok s else heapify_loop (S (size s)) s i.
+  if decide (ssize s <= 1) then Ok s else heapify_loop (S (ssize s)) s i.
 
 (** ** bubble_up (mod.rs:746): moving-hole sift-up *)
 Fixpoint bubble_up_loop (fuel : nat) (s : store) (pos : nat) (p : P)
@@ -63,7 +63,7 @@ Fixpoint bubble_up_loop (fuel : nat) (s : store) (pos : nat) (p : P)
   end.
 
 Definition bubble_up (s : store) (pos idx : nat) : R (nat * store) :=
-  e ← unwrap (map s !! idx);
+  e ← unwrap (smap s !! idx);
   '(pos', s1) ← bubble_up_loop (S pos) s pos e.2;
   h ← setu (heap s1) pos' idx;
   q ← setu (qp s1) idx pos';
@@ -84,28 +84,28 @@ Fixpoint heap_build_loop (s : store) (n : nat) : R store :=
   end.
 
 Definition heap_build (s : store) : R store :=
-  if decide (size s = 0) then Ok s
-  else top ← parent (size s); heap_build_loop s (S top).
+  if decide (ssize s = 0) then Ok s
+  else top ← parent (ssize s); heap_build_loop s (S top).
 
 (** ** public operations *)
 
 (** peek (mod.rs:193): [heap.first().and_then(|i| map.get_index(i))] *)
 Definition peek (s : store) : option (I * P) :=
-  i ← heap s !! 0; map s !! i.
+  i ← heap s !! 0; smap s !! i.
 
 (** peek_mut (mod.rs:639) *)
 Definition peek_mut (s : store) (u : I -> I) : R (option (I * P) * store) :=
-  if decide (size s = 0) then Ok (None, s)
+  if decide (ssize s = 0) then Ok (None, s)
   else
     i ← getu (heap s) 0;
-    match map s !! i with
+    match smap s !! i with
     | None => Ok (None, s)
-    | Some e => Ok (Some (u e.1, e.2), set_map s (<[i := (u e.1, e.2)]> (map s)))
+    | Some e => Ok (Some (u e.1, e.2), set_map s (<[i := (u e.1, e.2)]> (smap s)))
     end.
 
 (** pop (mod.rs:297) *)
 Definition pop (s : store) : R (option (I * P) * store) :=
-  match size s with
+  match ssize s with
   | 0 => Ok (None, s)
   | 1 => swap_remove s 0
   | _ => '(r, s1) ← swap_remove s 0; s2 ← heapify s1 0; Ok (r, s2)
@@ -114,7 +114,7 @@ Definition pop (s : store) : R (option (I * P) * store) :=
 (** pop_if (mod.rs:395) *)
 Definition pop_if (s : store) (f : I -> P -> I * P * bool)
   : R (option (I * P) * store) :=
-  match size s with
+  match ssize s with
   | 0 => Ok (None, s)
   | 1 => swap_remove_if s 0 f
   | _ => '(r, s1) ← swap_remove_if s 0 f; s2 ← heapify s1 0; Ok (r, s2)
@@ -124,19 +124,19 @@ Definition pop_if (s : store) (f : I -> P -> I * P * bool)
     stays; Vacant: appended to the map, the tables, then sifted up, and only
     then is [size] incremented. *)
 Definition push (s : store) (k : I) (p : P) : R (option P * store) :=
-  match get_index_of keq hash (map s) k with
+  match get_index_of keq hash (smap s) k with
   | Some i =>
-      e ← unwrap (map s !! i);
-      let s1 := set_map s (<[i := (e.1, p)]> (map s)) in
+      e ← unwrap (smap s !! i);
+      let s1 := set_map s (<[i := (e.1, p)]> (smap s)) in
       pos ← getu (qp s1) i;
       s2 ← up_heapify s1 pos;
       Ok (Some e.2, s2)
   | None =>
-      let s1 := set_map s (map s ++ [(k, p)]) in
-      let i := size s1 in
+      let s1 := set_map s (smap s ++ [(k, p)]) in
+      let i := ssize s1 in
       let s2 := set_heap (set_qp s1 (qp s1 ++ [i])) (heap s1 ++ [i]) in
       '(_, s3) ← bubble_up s2 i i;
-      Ok (None, set_size s3 (S (size s3)))
+      Ok (None, set_size s3 (S (ssize s3)))
   end.
 
 (** push_increase / push_decrease (mod.rs:488, :526): [priority > *p] *)
@@ -178,7 +178,7 @@ Definition pq_remove (s : store) (k : I) : R (option (I * P) * store) :=
   match r with
   | None => Ok (None, s1)
   | Some (i, p, pos) =>
-      s2 ← (if decide (pos < size s1) then up_heapify s1 pos else Ok s1);
+      s2 ← (if decide (pos < ssize s1) then up_heapify s1 pos else Ok s1);
       Ok (Some (i, p), s2)
   end.
 
@@ -212,7 +212,7 @@ Fixpoint pop_all (fuel : nat) (s : store) (acc : list (I * P)) : R (list (I * P)
       end
   end.
 Definition into_sorted_vec (s : store) : R (list (I * P) * store) :=
-  pop_all (S (size s)) s [].
+  pop_all (S (ssize s)) s [].
 
 (** ** Extend (mod.rs:884) *)
 
@@ -237,9 +237,9 @@ Definition extend_with (build : store -> R store) (pushall : store -> list (I * 
   s1 ← reserve alloc_limit s h.1;
   let rebuild :=
     match h.2 with
-    | Some max => better_to_rebuild (N.of_nat (size s1)) max
+    | Some max => better_to_rebuild (N.of_nat (ssize s1)) max
     | None => if decide (h.1 = 0%N) then false
-              else better_to_rebuild (N.of_nat (size s1)) h.1
+              else better_to_rebuild (N.of_nat (ssize s1)) h.1
     end in
   if rebuild : bool then s2 ← extend_entries keq hash s1 l; build s2
   else pushall s1 l.
